@@ -84,8 +84,8 @@ theorem bq_cleanupContexts (s : BSt) : bq (cleanupContexts s) = bq s := by
   · rfl
   · exact bq_go _ _
 
-theorem bq_cleanupLoggers (s : BSt) : bq (cleanupLoggers s) = bq s := by
-  apply cleanupLoggers_pres' (fun x => bq x = bq s)
+theorem bq_cleanupLoggers (inj : BSt → Nat → BSt) (hq : Quiet9 inj) (s : BSt) : bq (cleanupLoggers inj s) = bq s := by
+  apply cleanupLoggers_presL (fun x => bq x = bq s) inj hq
   · intro x hx; rw [bq_allEmpty]; exact hx
   · intro x y hx h
     have h1 : bq (stripL y) = bq y := rfl
@@ -144,7 +144,7 @@ def exitBody (inj : BSt → Nat → BSt) (tick : Nat) (s : BSt) : BSt :=
 
 /-- what the loop does when it finds everything empty: report, flush, reclaim -/
 def exitFinal (inj : BSt → Nat → BSt) (s : BSt) : BSt :=
-  cleanupLoggers (cleanupContexts (flushSinks (checkFailures inj (allEmpty s).1)))
+  cleanupLoggers inj (cleanupContexts (flushSinks (checkFailures inj (allEmpty s).1)))
 
 theorem exitLoop_zero (inj : BSt → Nat → BSt) (tick : Nat) (s : BSt) : exitLoop inj tick 0 s = s := rfl
 
@@ -176,16 +176,16 @@ theorem TCInv_exitBody {inj : BSt → Nat → BSt} (hi : InjOK TCInv inj) (tick 
     TCInv (exitBody inj tick s) := by
   unfold exitBody
   simp only []
-  have h2 := populate_ok TCInv_closed hi _ (TCInv_closed.clock _ ((allEmpty s).1.now + tick) (TCInv_closed.allEmpty s hs))
+  have h2 := populate_ok TCInv_closed.toClosedB hi _ (TCInv_closed.clock _ ((allEmpty s).1.now + tick) (TCInv_closed.allEmpty s hs))
   split
-  · exact batchLoop_ok TCInv_closed hi _ _ h2
+  · exact batchLoop_ok TCInv_closed.toClosedB hi _ _ h2
   · exact h2
 
 theorem exitFinal_drained (s : BSt) (hs : TCInv s) (he : (allEmpty s).2 = true) :
     AllDrained (exitFinal (runInj []) s) := by
   unfold exitFinal
   apply AllDrained_of_bq _ (allEmpty_drained s hs he)
-  rw [bq_cleanupLoggers, bq_cleanupContexts, bq_flushSinks, bq_checkFailures_nil]
+  rw [bq_cleanupLoggers _ runInj_nil_quiet9, bq_cleanupContexts, bq_flushSinks, bq_checkFailures_nil]
 
 /-- if the exit loop reaches its "everything is empty" branch, it ends in `exitFinal` of a reachable state in
     which the emptiness check answered yes -/
@@ -267,44 +267,19 @@ theorem allEmpty_log (s : BSt) : (allEmpty s).1.log = s.log := by
     | cons i rest ih => intro acc; simp only [List.foldl_cons]; rw [ih]; rfl
   rw [this]; unfold refreshCache; split <;> rfl
 
-/-- the logger clean-up emits nothing but sink destructions -/
-theorem cleanupLoggers_dtors (s : BSt) : OnlyDtors s (cleanupLoggers s) := by
-  unfold cleanupLoggers
-  split
-  · exact OnlyDtors.refl s
-  · simp only []
-    generalize insSorted _ ((List.range ({ s with hasInvalidLoggers := false } : BSt).lgs.length).filter _) = order
-    have hfold : ∀ (l : List Nat) (acc : BSt × List Nat), OnlyDtors s acc.1 →
-        OnlyDtors s (l.foldl (fun (acc : BSt × List Nat) i =>
-          if (acc.1.lgOf i).valid then acc else
-          if (allEmpty acc.1).2 then
-            (reapSinks ((allEmpty acc.1).1.setLg i (fun l => { l with erased := true })) (acc.1.lgOf i).sinks,
-              acc.2 ++ [(acc.1.lgOf i).gid])
-          else ({ (allEmpty acc.1).1 with hasInvalidLoggers := true }, acc.2)) acc).1 := by
-      intro l
-      induction l with
-      | nil => intro acc h; exact h
-      | cons i rest ih =>
-        intro acc h
-        simp only [List.foldl_cons]
-        apply ih
-        split
-        · exact h
-        · split
-          · refine (h.trans (OnlyDtors.of_log ?_)).trans (reapSinks_dtors _ _)
-            show ((allEmpty acc.1).1.setLg i _).log = _
-            exact allEmpty_log acc.1
-          · exact h.trans (OnlyDtors.of_log (allEmpty_log acc.1))
-    have h1 := hfold order ({ s with hasInvalidLoggers := false }, []) (OnlyDtors.of_log rfl)
-    revert h1
-    generalize order.foldl _ ({ s with hasInvalidLoggers := false }, ([] : List Nat)) = res
-    intro h1
-    obtain ⟨s1, removed⟩ := res
-    simp only []
-    apply foldl_pres (OnlyDtors s) _ _ _ _ h1
-    intro x gid hx
-    split
-    · exact hx.trans (OnlyDtors.of_log rfl)
-    · exact hx
+/-- the logger clean-up emits nothing but sink destructions (nothing injected at hook site 9) -/
+theorem cleanupLoggers_dtors (inj : BSt → Nat → BSt) (hq : Quiet9 inj) (s : BSt) :
+    OnlyDtors s (cleanupLoggers inj s) := by
+  apply cleanupLoggers_steps (OnlyDtors s) inj _ _ _ _ _ _ s (OnlyDtors.refl s)
+  · intro x hx
+    obtain ⟨sc, h⟩ := hq x
+    rw [h]; exact hx.trans (OnlyDtors.of_log rfl)
+  · intro x b hx; exact hx.trans (OnlyDtors.of_log rfl)
+  · intro x hx; exact hx.trans (OnlyDtors.of_log (allEmpty_log x))
+  · intro x i hx _ _
+    exact hx.trans (OnlyDtors.of_log (b := (allEmpty x).1.setLg i (fun l => { l with erased := true })) (allEmpty_log x))
+  · intro x sid hx _ _
+    exact hx.trans ⟨[.sinkDtor sid], rfl, fun e he => ⟨sid, by simpa using he⟩⟩
+  · intro x f g hx; exact hx.trans (OnlyDtors.of_log rfl)
 
 end Backend.PC
